@@ -42,21 +42,26 @@ NOT_CARRIED = [
     "C05_partial: row sums of a closed room within 2.5 % of 1 (quadrature accuracy, see C06) -- measured on "
     "every baked room",
     "C05_partial, Nusselt branch: nusselt_integration / nusselt_analog / _surf_sample_regulargrid ARE modelled "
-    "(coq/theories/Model/Nusselt.v, tied to /repo by the family nusselt_model at rel 1e-9 / abs 1e-12) and PROVED for "
-    "the model (coq/theories/Proofs/NusseltProofs.v): invariance under a common translation of both patches "
-    "(C05_nusselt_translation: commutative ring), invariance under uniform scaling by s > 0 "
-    "(C05_nusselt_scaling: ordered field + SqrtLaws, the two sides el[1]-el[0], el[-1]-el[0] of the sampled patch "
-    "of non-zero length), the sample grid of a 4-vertex patch has npointsx*npointsz points, each "
-    "el[0] + s*u + t*v with 0 < s, t < 1 (C05_nusselt_grid_rectangle), and the assembly with the Nusselt branch "
-    "computed by the model still has exact zeros for invisible pairs and the area-ratio reciprocity of the i<j rule "
-    "(C05_full_assembly).  NOT proved for the Nusselt branch: any accuracy statement (the value approximates the "
-    "form-factor integral; the quadratic-arc and regular-grid quadratures are not analysed), 0 <= F <= 1, "
-    "area_i*F_ij = area_j*F_ji of the two-sided kernel (it is NOT symmetric: one patch is sampled, the other "
-    "projected; measured as kernel_two_sided_*), rotation invariance (the rotation matrix of _rotation_matrix has "
-    "special cases decided by exact float equality and the projected-plane frame changes with the normal; only "
-    "exercised by the similarity test at rel 1e-6), continuity across the three 1e-6 decision thresholds and the "
-    "rounding of the grid counts; np.linalg.inv of the 3x3 Vandermonde matrix is modelled by the Lagrange closed "
-    "form and x**k by the k-fold product (compared numerically, not proved equal to LAPACK / libm)",
+    "(coq/theories/Model/Nusselt.v, tied to /repo by the family nusselt_model at rel 1e-9 + abs 1e-12, and through "
+    "patch2patch_ff_full on every baked room) and the following is PROVED for the model "
+    "(coq/theories/Proofs/NusseltProofs.v): invariance under a common translation of both patches, also of "
+    "universal_form_factor with both branches (C05_nusselt_translation, C05_universal_full_translation: commutative "
+    "ring); invariance under uniform scaling by s > 0 (C05_nusselt_scaling: ordered field + SqrtLaws; for "
+    "nusselt_integration the two sampled sides el[1]-el[0], el[-1]-el[0] must have non-zero length); the sample grid "
+    "of a non-triangular patch has npointsx*npointsz points, the cell centres el[0] + (2i+1)/(2 npointsx) u + "
+    "(2j+1)/(2 npointsz) v, strictly inside the parallelogram (C05_nusselt_grid_rectangle: ordered field + FloorLaws); "
+    "the assembly with both branches computed holds exact zeros for unlisted pairs, the Nusselt value exactly on "
+    "touching listed pairs, and keeps the zero / area-ratio reciprocity statements of the i<j rule "
+    "(C05_full_assembly_entries, C05_full_assembly).  NOT proved for the Nusselt branch: every accuracy statement "
+    "(that the value approximates the form-factor integral: the quadratic-arc area and the regular-grid quadrature "
+    "are not analysed), 0 <= F <= 1, area_i*F_ij = area_j*F_ji of the two-sided kernel (it is not symmetric by "
+    "construction: one patch is sampled, the other projected; measured as *kernel_two_sided*), rotation invariance "
+    "(_rotation_matrix has special cases decided by exact float equality and the in-plane frame changes with the "
+    "normal; only exercised by the similarity test at rel 1e-6), scaling invariance of universal_form_factor as a "
+    "whole (the 1e-6 m coincidence threshold is absolute), continuity across the three 1e-6 decision thresholds and "
+    "across the rounding of the grid counts, the triangle branch of the sample grid; np.linalg.inv of the 3x3 "
+    "Vandermonde matrix is modelled by the Lagrange closed form and x**k by the k-fold product (compared numerically, "
+    "not proved equal to LAPACK / libm)",
     "C05_similarity is now PROVED for the Stokes branch (coq/theories/Proofs/StokesSimilarity.v): with cut-off 0 (the "
     "code as repaired in /repo by cfd1b2b; before that the 1e-3 m cut-off made it false, former finding "
     "similarity_cutoff) stokes_integration 0 = stokes_nocut for all patches (C05_similarity_cut0); stokes_nocut is "
